@@ -20,7 +20,7 @@ import scipy.optimize
 
 from yaw.config import Configuration
 from yaw.correlation.corrfunc import CorrData
-from yaw.options import PlotStyle
+from yaw.options import Closed, PlotStyle
 from yaw.utils import parallel
 from yaw.utils.logging import Indicator
 
@@ -46,15 +46,16 @@ def _redshift_histogram(
     """Worker function that computes a redshift histgram from a given patch and
     binning, returns the result together with the patch ID."""
     redshifts = patch.redshifts
-    # numpy histogram uses the bin edges as closed intervals on both sides
-    if binning.closed == "right":
-        mask = redshifts > binning.edges[0]
-    else:
-        mask = redshifts < binning.edges[-1]
+    # assign bins the same way as when building trees, numpy.histogram always
+    # treats the inner bin edges as closed on the left side
+    bin_idx = np.digitize(
+        redshifts, binning.edges, right=(binning.closed == Closed.right)
+    )
+    mask = (bin_idx > 0) & (bin_idx <= len(binning))
 
     weights = patch.weights[mask] if patch.has_weights else None
 
-    counts, _ = np.histogram(redshifts[mask], binning.edges, weights=weights)
+    counts = np.bincount(bin_idx[mask] - 1, weights=weights, minlength=len(binning))
     return patch_id, counts.astype(np.float64)
 
 
